@@ -64,6 +64,13 @@ def _dot_calls(fx, np, pid, t, t2, rng, ext_only, n):
         for route in ('np', 'method') + (('matmul',) if (len(sa) == 2 and len(sb) == 2) else ()):
             out.append(x_reduce.observe_reduce(fx, np, [pid], 'dot', route, t, ca, sa, t2=t2, codes2=cb, shape2=sb,
                                                via=rng.choice(['direct', 'T', 'slice'])))
+    # aliasing: the same object as both operands (vectors and square matrices, negative entries in the matrix square)
+    if tuple(t) == tuple(t2):
+        for sa in ((n,), (2, 2), (3, 3)):
+            k = sa[0] * (sa[1] if len(sa) == 2 else 1)
+            ca = [pick(lo, hi) for _ in range(k)]
+            for route in ('np', 'method') + (('matmul',) if len(sa) == 2 else ()):
+                out.append(x_reduce.observe_reduce(fx, np, [pid], 'dot', route, t, ca, sa, t2=t, codes2=ca, shape2=sa, via='same-object'))
     return out
 
 
